@@ -127,13 +127,10 @@ def write_coqproject():
             raise RuntimeError("coq_makefile failed: " + out)
 
 
-def coq_build(targets, clean=False, timeout=3000):
+def coq_build(targets, timeout=3000):
     """make the given .vo targets (paths relative to coq/). Returns (ok, output)."""
     with Lock("coq"):
         write_coqproject()
-        if clean:
-            sh("make clean", cwd=COQ)
-            write_coqproject()
         rc, out = sh("timeout %d make -j16 %s" % (timeout, " ".join(targets)), cwd=COQ, timeout=timeout + 60)
         if rc != 0 and "No rule to make target" in out:
             # stale dependency file mentioning a .v that no longer exists: rebuild it once
@@ -292,7 +289,28 @@ def run_check(cfg, tier, seed, replay=None):
         hits = scan_forbidden(None if os.environ.get('VERIF_GLOBAL_SCAN') == '1' else cfg['coq_dir'])
         if hits:
             violations.append(("unproved", {"what": "forbidden construct in Coq sources", "hits": hits}))
-        ok, out = coq_build(deps_vo + ["%s/Properties.vo" % cfg["coq_dir"]], clean=(tier == "thorough" and os.environ.get("VERIF_NO_CLEAN") != "1"))
+        ok, out = coq_build(deps_vo + ["%s/Properties.vo" % cfg["coq_dir"]])
+        clean_tree = None
+        if ok and tier == "thorough" and os.environ.get("VERIF_NO_CLEAN") != "1":
+            # thorough: rebuild the property's closure from sources only, in a
+            # private copy (no .vo reused), so that stale objects cannot hide a
+            # broken proof; coqchk runs on that copy too
+            clean_tree = os.path.join(rundir, "coqclean")
+            os.makedirs(clean_tree)
+            for d in sorted(closure_dirs(cfg["coq_dir"])):
+                src = os.path.join(COQ, d)
+                if os.path.isdir(src):
+                    os.makedirs(os.path.join(clean_tree, d))
+                    for f in os.listdir(src):
+                        if f.endswith(".v"):
+                            shutil.copyfile(os.path.join(src, f), os.path.join(clean_tree, d, f))
+            files = [os.path.relpath(os.path.join(r, f), clean_tree) for r, _, fs in os.walk(clean_tree) for f in fs if f.endswith(".v")]
+            open(os.path.join(clean_tree, "_CoqProject"), "w").write("-Q . V\n-arg -w -arg -notation-overridden,-deprecated-hint-without-locality,-deprecated-instance-without-locality,-deprecated-hint-rewrite-without-locality\n" + "\n".join(sorted(files)) + "\n")
+            rc1, o1 = sh("coq_makefile -f _CoqProject -o Makefile", cwd=clean_tree)
+            rc2, o2 = sh("timeout 3000 make -j16 %s" % " ".join(deps_vo + ["%s/Properties.vo" % cfg["coq_dir"]]), cwd=clean_tree, timeout=3100)
+            cov["clean_rebuild"] = {"exit": rc2, "files": len(files)}
+            if rc1 != 0 or rc2 != 0:
+                ok, out = False, o1 + o2
         discharged = 0
         per_thm = {}
         checker_cmd = "make -C coq -j16 %s/Properties.vo && coqc -Q coq V coq/%s/Properties.v" % (cfg["coq_dir"], cfg["coq_dir"])
@@ -320,8 +338,7 @@ def run_check(cfg, tier, seed, replay=None):
                     else:
                         discharged += 1
         if tier == "thorough" and ok and os.environ.get("VERIF_NO_COQCHK") != "1" and cfg.get("coqchk", True):
-            with Lock("coq"):
-                rc, cout = sh("timeout 2400 coqchk -silent -o -Q . V V.%s.Properties" % cfg["coq_dir"].replace("/", "."), cwd=COQ, timeout=2500)
+            rc, cout = sh("timeout 2400 coqchk -silent -o -Q . V V.%s.Properties" % cfg["coq_dir"].replace("/", "."), cwd=(clean_tree or COQ), timeout=2500)
             cov["coqchk"] = {"exit": rc, "tail": cout[-1500:]}
             checker_cmd += " && coqchk -silent -o -Q coq V V.%s.Properties" % cfg["coq_dir"]
             if rc != 0:
